@@ -125,11 +125,14 @@ def main():
         meta["check_results"] = verdicts
         dest = os.path.join(VERIF, "seeded", name)
         os.makedirs(dest, exist_ok=True)
-        shutil.copy(patch, os.path.join(dest, "patch.diff"))
-        shutil.copy(demo, os.path.join(dest, os.path.basename(demo) if not demo.endswith("main.go") else "demo_main.go"))
+        def cp(src, dst):
+            if os.path.abspath(src) != os.path.abspath(dst):
+                shutil.copy(src, dst)
+        cp(patch, os.path.join(dest, "patch.diff"))
+        cp(demo, os.path.join(dest, os.path.basename(demo) if not demo.endswith("main.go") else "demo_main.go"))
         readme = os.path.join(out, "README.md")
         if os.path.exists(readme):
-            shutil.copy(readme, os.path.join(dest, "AUTHOR_README.md"))
+            cp(readme, os.path.join(dest, "AUTHOR_README.md"))
         mpath = os.path.join(dest, "meta.json")
         old = json.load(open(mpath)) if os.path.exists(mpath) else {}
         old.update(meta)
